@@ -302,6 +302,14 @@ func checkProperty(c *Ctx, p *Property, tier string, seed int, known []KnownFind
 		}
 		perRule[o.Rule] = pr
 	}
+	// defects recorded from a demonstration that no rule decides: listed on every run
+	recorded := []string{}
+	for _, k := range known {
+		if k.Property == p.ID && k.Status == "recorded" {
+			fmt.Printf("KNOWN-FINDING: property=%s %s [recorded from a demonstration against the real code; not decided by a static rule: %s]\n", p.ID, k.What, k.NotDecided)
+			recorded = append(recorded, k.What)
+		}
+	}
 	// samples: a few obligations per rule, violated first
 	sort.SliceStable(all, func(i, j int) bool {
 		ri := all[i].Status == Violated || all[i].Status == Undecided
@@ -358,6 +366,7 @@ func checkProperty(c *Ctx, p *Property, tier string, seed int, known []KnownFind
 			"evaluations":         nObl,
 			"distinct_nontrivial": nNontriv,
 			"known_findings_hit":  knownHit,
+			"recorded_findings":   recorded,
 			"samples":             samples,
 			"informational":       infos,
 			"packages_analysed":   len(c.Pkgs),
